@@ -1,6 +1,7 @@
 SPECIFICATION Spec
 CONSTANT Which = "C17"
 CONSTANT TinyLen = 0
+CONSTANT OwnTailLen = 0
 CONSTANT TailLen = 0
 CONSTANT SmallLen = 4
 CONSTANT AsBuilt = {"FilterChecksPrefixOnly"}
